@@ -69,13 +69,13 @@ CFG = {
                   "stored NRGBA image, scaled or not, translucent included (decision by the source alphas against 50 AND colours standing for the source pixels under the cell within 255/a + 1 levels); generic_path_eq_fast_path (sources of other types under the stated hypothesis SameAs, "
                   "gray_same_as_nrgba proved); half_pipeline_any_source / full_pipeline_any_source / half_pipeline_any_opaque_source - the renderers on a source of ANY concrete type given by its At().RGBA() (JPEG -> *image.YCbCr, Gray, Paletted, 16-bit; scaled or not): the property's table / mean on the "
                   "two seen source pixels under each cell, exact 8-bit colours for opaque sources; ycbcr_fast_path, generic_model_contains_fast_model; terminal_placements_inside - over all application histories every placement in the TERMINAL's table was drawn at the origin of a window containing all of it; F320 (HalfBlockImage drew what At() answers outside the bounds - black for image.Gray, palette[0] for image.Paletted - under the last row of an odd-height image) found and repaired, half_block_bottom_shape; F420 (images whose bounds do not start at the origin - SubImage crops - were measured by Bounds().Max: cell size of the crop plus its offset, wrong aspect) found and repaired, "
-                  "Gen.resizeOriginNormalised, Witness.F420.",
+                  "Gen.resizeOriginNormalised, Witness.F420; F520 (KittyImage.Draw placed an image left without pixels by a Resize - the terminal then showed the older, larger picture) found and repaired, Gate.zeroSize, Witness.F520.",
     "level_note": "Validated by correspondence only: that the model is the code (VerifResizeDims / VerifToRGB / VerifAverageColor / "
                   "real block images / real kitty and sixel placements on a fake console incl. degenerate pixel reports, signed boxes, windows of their "
                   "own; 0 mismatches), the float hypothesis on the values seen. Oracles on the implementation independent of the model: fit / no-upscale / "
                   "aspect, cell geometry, CellSize = ceil(px/cell) exactly, negative box => empty, glyph table and colours, mustWrite / mustDelete, kitty "
                   "placement inside its window (F120), rescaled opaque images show colours of source pixels under each cell (independent of the index formula), last odd row of a full-block image "
-                  "in its own colour (F220); round 4: the order-sensitive terminal model run on the implementation's ORDERED command sequence - every a=p finds the data of the image's last Resize, after every frame the terminal's table = the (image, origin) pairs the application drew "
+                  "in its own colour (F220); round 4: the order-sensitive terminal model run on the implementation's ORDERED command sequence - every a=p finds the data of the image's last Resize and a picture that does not occupy more cells than the image's cell size (F520), after every frame the terminal's table = the (image, origin) pairs the application drew "
                   "(not judged from a frame with a key clash on: keyfun_needed); the hypothesis SameAs for *image.Gray / *image.Paletted sources and the transcribed YCbCr conversion / subsampling (1000 images per quick run through the real scaler and renderers). That the scaler model is x/image's code (hand-transcribed, tied by about 1 600 rescaled images per quick run). Modelled, not verified: translucent 16-bit source types (inside the any-source theorems, not exercised), which of the two terminal models a given terminal implements (the oracle runs the lenient one), "
                   "the content of the PNG a kitty placement transmits is compared with the model's scaling only for opaque images (digest of the decoded pixels; correspondence, no theorem about the encoder), nothing about the sixel data.",
     "assumptions": ["image dimensions >= 1 (empty images are out of scope); box dimensions are any Int (round 2); the model's images start at the origin - since the F420 repair resizeImage translates any other image there first (Gen.resizeOriginNormalised)",
